@@ -30,6 +30,29 @@ def nrm(s):
     return re.sub(r"[^a-z0-9]", "", s.lower())
 
 
+def only_first_byte_used(f, call):
+    """Is the array a call returns read only through its element 0 (and never borrowed, moved or passed on)?"""
+    d = call.get("dest") or {}
+    if d.get("p"):
+        return False
+    L = d.get("l")
+    uses = []
+
+    def walk(x, own):
+        if isinstance(x, dict):
+            if x.get("l") == L and "p" in x and not (own and x is d):
+                uses.append(x["p"])
+            for v in x.values():
+                walk(v, own)
+        elif isinstance(x, list):
+            for v in x:
+                walk(v, own)
+    for b in f["blocks"]:
+        walk(b["stmts"], False)
+        walk(b["term"], b["term"] is call)
+    return bool(uses) and all(len(p) == 1 and isinstance(p[0], dict) and p[0].get("ci") == 0 and not p[0].get("fe") for p in uses)
+
+
 def check(run, F, tier):
     run.explanation = ("Every table the wire format is built from is extracted from the compiled program (evaluated enum "
                        "discriminants, struct field types, match tables from MIR, serialiser field order) and compared with the "
@@ -218,14 +241,16 @@ def check(run, F, tier):
     bad = []
     n = 0
     for f in F.fns.values():
-        if not f["path"].startswith("mqtt::packet::"):
-            continue
+        if not (f["path"].startswith("mqtt::packet::") or "src/mqtt/packet/" in (f.get("file") or "")):
+            continue          # (trait impls for foreign types - `<u16 as IsPacketId>::to_buffer` - are found by their file)
         for b in f["blocks"]:
             t = b["term"]
             if t["k"] == "call" and "fn" in t["func"].get("const", {}):
                 n += 1
                 nm = t["func"]["const"]["fn"]["name"]
                 if nm in ("to_le_bytes", "from_le_bytes", "to_ne_bytes", "from_ne_bytes", "swap_bytes", "to_le", "from_le"):
+                    if nm == "to_le_bytes" and only_first_byte_used(f, t):
+                        continue        # `let [low, ..] = x.to_le_bytes()`: the truncation `x as u8`, no byte order involved
                     bad.append("%s:%s %s" % (f["file"], t.get("line"), nm))
     if bad:
         for b in bad:
